@@ -1,6 +1,7 @@
 (* Props/C06.v — property C06: call-frame information is parsed and interpreted per
    DWARF / .eh_frame rules.  Only statements, closed by [exact]; proofs live in
-   Proofs/C06GenProofs.v, C06InstrProofs.v, C06TableProofs.v, C06EntriesProofs.v.
+   Proofs/C06GenProofs.v, C06InstrProofs.v, C06TableProofs.v, C06TableExact.v,
+   C06EntriesProofs.v.
    Models: Model/C06Callframe.v (CallFrameInfo: entry scan, augmentation, pointer encodings,
    instruction splitting), Model/C06Table.v (CFIEntry._decode_CFI_table).
    Specs:  Spec/C06Instr.v (DWARF 5 6.4.2 / 7.24 instruction encoding), Spec/C06Entries.v
@@ -8,7 +9,8 @@
    Spec/C06View.v (how a spec object is observed through the library's API types). *)
 From Coq Require Import String.
 From PV Require Import Base.Bytes Gen.C06Tables Spec.C06View
-     Proofs.C06GenProofs Proofs.C06TableProofs Proofs.C06InstrProofs Proofs.C06EntriesProofs.
+     Proofs.C06GenProofs Proofs.C06TableProofs Proofs.C06TableExact Proofs.C06InstrProofs
+     Proofs.C06EntriesProofs.
 From Coq Require Import List.
 Open Scope Z_scope.
 
@@ -179,6 +181,35 @@ Theorem C06_table_fde_refuted : exists caf daf cis loc fis t,
   ~ result_matches (decode_fde caf daf (map to_raw cis) loc (map to_raw fis)) t.
 Proof. exact table_fde_refuted. Qed.
 Print Assumptions C06_table_fde_refuted.
+
+(* the exact extent of that finding, for ALL instruction lists and factors (no domain): the
+   model's table is the 6.4 table with at most the rule-less final row missing *)
+Theorem C06_table_exact_cie : forall caf daf cis t,
+  low6_all cis = true -> cfi_spec_cie caf daf cis = Some t ->
+  result_matches (decode_cie caf daf (map to_raw cis)) (drop_ruleless_last t).
+Proof. exact table_exact_cie. Qed.
+Print Assumptions C06_table_exact_cie.
+
+(* for an FDE: whenever the CIE's initial instructions end in a row with a rule or never create a
+   row (cie_closed; every CIE a compiler emits) *)
+Theorem C06_table_exact_fde : forall caf daf cis loc fis t,
+  low6_all cis = true -> low6_all fis = true ->
+  cfi_spec_fde caf daf cis loc fis = Some t -> cie_closed caf daf cis = true ->
+  result_matches (decode_fde caf daf (map to_raw cis) loc (map to_raw fis)) (drop_ruleless_last t).
+Proof. exact table_exact_fde. Qed.
+Print Assumptions C06_table_exact_fde.
+
+Theorem C06_drop_nothing : forall t, last_row_has_rule t = true -> drop_ruleless_last t = t.
+Proof. exact drop_nothing. Qed.
+Print Assumptions C06_drop_nothing.
+
+Example C06_ex_table_exact :
+  cie_closed 1 1 [I_nop] = true /\
+  option_map (fun t => map row_loc (t_rows (drop_ruleless_last t)))
+             (cfi_spec_fde 1 1 [I_nop] 4096 [I_advance_loc 1; I_nop]) = Some [4096] /\
+  option_map (fun t => map row_loc (t_rows t))
+             (cfi_spec_fde 1 1 [I_nop] 4096 [I_advance_loc 1; I_nop]) = Some [4096; 4097].
+Proof. repeat split; reflexivity. Qed.
 
 (* sequences the standard calls invalid: no table in the spec, an exception in the model *)
 Theorem C06_restore_state_underflow : forall caf daf,
